@@ -83,6 +83,24 @@ pub fn mbox(args: &[&str]) -> Option<Vec<String>> {
     Some(vec![disp_s, back, serde, wire])
 }
 
+/// `mboxctor <name> <addr>` → the other ways to build the same mailbox give an equal value: `TryFrom<(name, address)>`
+/// (name kept as given), `From<Address>` (no name); one flag each
+pub fn mboxctor(args: &[&str]) -> Option<Vec<String>> {
+    let name = unhex_str(args.first()?)?;
+    let addr_s = unhex_str(args.get(1)?)?;
+    let addr: Address = addr_s.parse().ok()?;
+    let m = Mailbox::new(Some(name.clone()), addr.clone());
+    let tuple = match Mailbox::try_from((name.clone(), addr_s.clone())) {
+        Ok(t) => t.name.as_deref() == Some(name.as_str()) && t.email == addr && t == m,
+        Err(_) => false,
+    };
+    let from_addr = {
+        let b: Mailbox = addr.clone().into();
+        b.name.is_none() && b.email == addr
+    };
+    Some(vec![format!("{}{}", if tuple { '1' } else { '0' }, if from_addr { '1' } else { '0' })])
+}
+
 /// `mboxlist <name:addr,name:addr,…>` → Display of the list, what parsing it gives
 pub fn mboxlist(args: &[&str]) -> Option<Vec<String>> {
     let mut ms = Mailboxes::new();
